@@ -388,11 +388,25 @@ class Builder:
                 continue
             if skew:
                 n = [float(v) for v in normals[q]]
-                lo = self.add_surf('p', n + [a])
-                hi = self.add_surf('p', n + [a + p])
             else:
-                lo = self.add_surf('p' + ax, [a])
-                hi = self.add_surf('p' + ax, [a + p])
+                n = [0.0, 0.0, 0.0]
+                n['xyz'.index(ax)] = 1.0
+            # either card of a pair may be written with the opposite normal
+            # (and any positive scale): same plane, opposite sense
+            rev_lo = d(st.integers(0, 4)) == 0
+            rev_hi = d(st.integers(0, 4)) == 0
+            ids = []
+            for rev, dd in ((rev_lo, a), (rev_hi, a + p)):
+                if rev:
+                    k_ = d(st.sampled_from([1.0, 2.0, 0.5]))
+                    ids.append(self.add_surf(
+                        'p', [-k_ * v for v in n] + [-k_ * dd]))
+                    self.labels.add('lat:reversed-normal-card')
+                elif skew:
+                    ids.append(self.add_surf('p', n + [dd]))
+                else:
+                    ids.append(self.add_surf('p' + ax, [dd]))
+            lo, hi = ids
             pitches.append(p)
             if not skew and d(st.integers(0, 5)) == 0:
                 # a TR card that maps the plane onto itself (translation
@@ -409,10 +423,12 @@ class Builder:
                     if s_['id'] == target:
                         s_['tr'] = self.trid
                 self.labels.add('lat:plane-with-invariant-tr')
+            lo_leaf = md.S(-lo if rev_lo else lo)
+            hi_leaf = md.S(hi if rev_hi else -hi)
             if d(st.booleans()):
-                leaves += [md.S(-hi), md.S(lo)]       # high side first
+                leaves += [hi_leaf, lo_leaf]          # high side first
             else:
-                leaves += [md.S(lo), md.S(-hi)]       # low side first
+                leaves += [lo_leaf, hi_leaf]          # low side first
                 self.labels.add('lat:low-side-first')
         if via_facets:
             for s_ in self.deck['surfaces']:
